@@ -25,6 +25,7 @@ class C07(EvalFamProp):
             D(d(M({'bar': M({'z': S(6005, kw={'safe': False})}), 'c': Stext('T(bar)', 'eval')}))),
             D(d(M({'c': M({'d': call('rec.f', {'x': S(1)}), 'e': S(1)})})), d(M({'c': M({'e': S(2)}, kw={'del': True})}))),     # D05
             D(d(M({'q': S(6006, kw={'safe': False}), 'p': M({'x': Stext('q', 'xref')}), 'c': call('rec.f', {'a': Stext('p', 'xref')})}))),   # D24 laundering
+            D(d(M({'a': M({'b': M({'c': call('rec.f', {})}, kw={'safe': True})}, kw={'safe': False})}))),                                   # D30 explicit safe=True below !unsafe
             D(d(M({'a': Stext('b.c', 'xref'), 'b': M({'c': M({'x': S(6007, kw={'safe': False})})}), 'c': call('rec.f', {'a': Stext('b', 'xref')})}))),
         ]
 
